@@ -15,10 +15,12 @@ import plans  # noqa: E402
 BUILD = os.path.join(ROOT, "build")
 COQ = os.path.join(ROOT, "coq")
 EXTRACT = os.path.join(BUILD, "extract")
-TARGET = os.path.join(BUILD, "target")
+TARGET = os.path.join(BUILD, "target" if os.environ.get("BSV_REPO", "/repo") == "/repo" else "target_alt")
 BSDRIVE = os.path.join(TARGET, "debug", "bsdrive")
 BSMODEL = os.path.join(EXTRACT, "bsmodel")
-ENV = dict(os.environ, CARGO_NET_OFFLINE="true", CARGO_TARGET_DIR=TARGET)
+REPO = os.environ.get("BSV_REPO", "/repo")      # the tree that is checked; only the seeded-change sweeps set it (a scratch worktree)
+EVIDENCE = os.environ.get("BSV_EVIDENCE", os.path.join(ROOT, "evidence"))
+ENV = dict(os.environ, CARGO_NET_OFFLINE="true", CARGO_TARGET_DIR=TARGET, BS_REPO=REPO)
 ALLOWED_AXIOMS = set()      # none: every property theorem must be closed under the global context
 FORBIDDEN = re.compile(r"\b(Admitted|admit|Axiom|Axioms|Parameter|Parameters|Conjecture|Hypothesis|Variable|bypass_check|Unset\s+Guard|Unset\s+Positivity|Unset\s+Universe|type-in-type|impredicative-set|Admit\s+Obligations|native_compute)\b")
 
@@ -78,8 +80,20 @@ def ocaml_build():
 
 def harness_build():
     h = os.path.join(ROOT, "harness")
+    if REPO != "/repo":
+        # same harness sources, dependency path pointed at the scratch tree
+        h2 = os.path.join(BUILD, "harness_alt")
+        os.makedirs(os.path.join(h2, "src"), exist_ok=True)
+        for fn in os.listdir(os.path.join(h, "src")):
+            shutil.copy(os.path.join(h, "src", fn), os.path.join(h2, "src", fn))
+        toml = open(os.path.join(h, "Cargo.toml")).read().replace('path = "/repo"', 'path = "%s"' % REPO)
+        if not os.path.exists(os.path.join(h2, "Cargo.toml")) or open(os.path.join(h2, "Cargo.toml")).read() != toml:
+            open(os.path.join(h2, "Cargo.toml"), "w").write(toml)
+        if os.path.exists(os.path.join(h, "Cargo.lock")) and not os.path.exists(os.path.join(h2, "Cargo.lock")):
+            shutil.copy(os.path.join(h, "Cargo.lock"), os.path.join(h2, "Cargo.lock"))
+        h = h2
     if not os.path.exists(os.path.join(h, "Cargo.lock")):
-        shutil.copy("/repo/Cargo.lock", os.path.join(h, "Cargo.lock"))
+        shutil.copy(os.path.join(REPO, "Cargo.lock"), os.path.join(h, "Cargo.lock"))
     rc, out = sh("cargo build --offline", cwd=h)
     return rc == 0, out
 
@@ -190,9 +204,10 @@ def collect(hs, script, impl, model, judge, hangs, merr):
         rm = [l for l in (gm[k] if k < len(gm) else []) if l.startswith("R ")]
         rj = gj[k] if k < len(gj) else []
         ops = [l for l in h["lines"] if l and not l.startswith("#")]
-        rec = {"h": h, "disagree": None, "judge_fail": None, "panic_hang": [], "undet": False, "nops": len(ops),
+        rec = {"h": h, "disagree": None, "disagreements": [], "judge_fail": None, "panic_hang": [], "undet": False, "nops": len(ops),
                "judged": sum(1 for l in rj if l.endswith(" ok")), "classes": {}, "judge_fails": [], "model_error": merr if (merr and k >= len(gm) - 1) else ""}
         stop = False
+        first_bad = None        # first op at which the implementation panicked or hung: the harness drops the handle there
         for j, op in enumerate(ops):
             a = ri[j] if j < len(ri) else None
             b = rm[j] if j < len(rm) else None
@@ -201,10 +216,18 @@ def collect(hs, script, impl, model, judge, hangs, merr):
             res = a[2:].split(" | ")[0]
             if res.split()[0] in ("panic", "hang") or " panic" in res or " hang" in res:
                 rec["panic_hang"].append((j, op, res))
-            if b is not None and not stop and a != b and rec["disagree"] is None:
-                rec["disagree"] = {"op_index": j, "op": op, "impl": a[:600], "model": b[:600]}
+                if first_bad is None: first_bad = j
+            if b is not None and not stop and a != b:
+                d = {"op_index": j, "op": op, "impl": a[:600], "model": b[:600], "what": plans.disagreement_what(op, a, b)}
+                rec["disagreements"].append(d)
+                if rec["disagree"] is None:
+                    rec["disagree"] = d
+                # what follows a disagreement on a state-changing operation or on a file is a consequence of it
+                if plans.opkind(op) not in plans.PURE_OPS or d["what"].startswith("file"):
+                    stop = True
             if res in ("panic", "hang"):
                 stop = True         # after a panic/hang only the judge's verdict counts
+        rec["first_bad"] = first_bad
         rec["classes"] = {}
         for l in rj:
             m = re.match(r"J (\d+) class (\d+)", l)
@@ -214,6 +237,8 @@ def collect(hs, script, impl, model, judge, hangs, merr):
                 m = re.match(r"J (\d+) FAIL (.*)", l)
                 j = int(m.group(1)) - 1
                 jf = {"op_index": j, "op": ops[j] if j < len(ops) else "?", "what": m.group(2)[:700]}
+                if first_bad is not None and j > first_bad and jf["what"].endswith("got err NoHandle"):
+                    continue        # the handle was dropped after the panic/hang at op first_bad: a consequence, not another failure
                 rec["judge_fails"].append(jf)
                 if rec["judge_fail"] is None:
                     rec["judge_fail"] = jf
@@ -264,7 +289,7 @@ def classify(pid, rec, known):
 # ---------------------------------------------------------------- check
 def check(pid, tier, seed):
     t0 = time.time()
-    os.makedirs(os.path.join(ROOT, "evidence"), exist_ok=True)
+    os.makedirs(EVIDENCE, exist_ok=True)
     os.makedirs(os.path.join(BUILD, "replay"), exist_ok=True)
     plan = plans.PLANS[pid]
     ev = {"property_id": pid, "tier": tier, "seed": seed, "level": "proof", "coverage": {}, "assumptions": [], "wall_s": 0, "violations": 0}
@@ -319,8 +344,9 @@ def check(pid, tier, seed):
                 known_hits.setdefault(k["id"], []).append(r2)
             else:
                 violations.append(r2)
-        if r["disagree"] and plans.relevant_disagreement(pid, r):
-            disagreements.append(r)
+        rel = [d for d in r["disagreements"] if plans.relevant_disagreement(pid, r, d)]
+        if rel:
+            disagreements.append(dict(r, disagree=rel[0]))
         if r["model_error"]:
             problems.append(("model", "model driver failed on %s: %s" % (r["h"]["id"], r["model_error"][:300])))
 
@@ -399,7 +425,7 @@ def check(pid, tier, seed):
     ev["assumptions"] = plans.ASSUMPTIONS
     ev["violations"] = len(violations) + (1 if exit_code and not violations else 0)
     ev["wall_s"] = round(time.time() - t0, 1)
-    with open(os.path.join(ROOT, "evidence", pid + ".json"), "w") as f:
+    with open(os.path.join(EVIDENCE, pid + ".json"), "w") as f:
         json.dump(ev, f, indent=1)
     print("%s %s: %d histories (%d ops, %d judged), %d disagreements, %d violations, known %s, proof obligations %d, %.0fs" %
           (pid, tier, len(recs), ev["coverage"]["ops_run"], ev["coverage"]["ops_judged"], len(disagreements), len(violations),
